@@ -3,7 +3,7 @@ from vlib import *
 import gen_vi
 from props import vilib
 
-PROP = "C08"; MODULES = ["NeatviVerif.Props.C08", "NeatviVerif.Props.C08b", "NeatviVerif.Props.C08c", "NeatviVerif.Props.C08d", "NeatviVerif.Props.C08e", "NeatviVerif.Props.C08f"]; MODE = "vi08"
+PROP = "C08"; MODULES = ["NeatviVerif.Props.C08", "NeatviVerif.Props.C08b", "NeatviVerif.Props.C08c", "NeatviVerif.Props.C08d", "NeatviVerif.Props.C08e", "NeatviVerif.Props.C08f", "NeatviVerif.Props.C08g"]; MODE = "vi08"
 
 def streams(probe, tier, seed, wide):
     rng = Rng(seed)
